@@ -28,6 +28,7 @@ RULE = (
     "very object that was bound; no value tagged for run A occurs in the arguments of run B. Non-trivial: >= 2 runs "
     "of a graph with a mutating node; distinct = (program shape, history kind)."
     ' Directed: a multi-output interrupt whose handler returns one shared dict object on every call; a value bound for a defaulted parameter of a node outside the graph-level selection (flat and nested).'
+    " Also: a mapping node over a work list that is the inner function's signature default (mutable items, mutated by the node), repeated on same/fresh sync/async runners; histories of calls (with and without run-time select, bound name supplied or not) over a family of graphs derived from one ancestor, each call compared with the same call on a family built from scratch."
 )
 ASSUMPTIONS = ["the mutating functions are ours; expectations are computed from the spec, never from a first run"]
 DECIDING = ["runs_checked", "defaults_checked", "identity_checked"]
